@@ -219,7 +219,7 @@ fn dev_ev(case: &Value, out: &mut Vec<Value>) {
     o.insert("ev".into(), json!("dev"));
     let (l1, l2) = (lay_of(case, "lay1", &shape), lay_of(case, "lay2", &shape));
     let alias = jstr(case, "alias", "");
-    macro_rules! measures { ($x:expr, $y:expr, $toi:expr, $tof:expr, $mv:expr, $hi:expr) => {{
+    macro_rules! measures { ($x:expr, $y:expr, $toi:expr, $tof:expr, $mv:expr, $hi:expr, $neg:expr) => {{
         let (x, y) = ($x, $y);
         let f = |r: Result<Result<f64, ndarray_stats::errors::MultiInputError>, ()>, sq: bool| -> Value { match r { Ok(Ok(v)) => quant(if sq { v * v } else { v }, qe), Ok(Err(_)) => json!(ERR_Q), Err(()) => json!(ERR_Q) } };
         json!({
@@ -234,6 +234,7 @@ fn dev_ev(case: &Value, out: &mut Vec<Value>) {
             "rmse2": f(guarded(|| x.root_mean_sq_err(&y)), true),
             "psnr": f(guarded(|| x.peak_signal_to_noise_ratio(&y, $mv)), false),
             "psnr_hi": f(guarded(|| x.peak_signal_to_noise_ratio(&y, $hi)), false),
+            "psnr_neg": f(guarded(|| x.peak_signal_to_noise_ratio(&y, $neg)), false),
         })
     }}; }
     macro_rules! int_ty { ($t:ty, $hik:expr) => {{
@@ -251,9 +252,9 @@ fn dev_ev(case: &Value, out: &mut Vec<Value>) {
         let mut hi = mv.clone();
         for _ in 0..$hik { hi = hi * <$t>::from(10i32); }
         o.insert("hik".into(), json!($hik));
-        o.insert("fwd".into(), measures!(va.clone(), vb.clone(), toi, 0, mv.clone(), hi.clone()));
-        o.insert("swp".into(), measures!(vb.clone(), va.clone(), toi, 0, mv.clone(), hi.clone()));
-        o.insert("same".into(), measures!(va.clone(), va.to_owned(), toi, 0, mv.clone(), hi.clone()));
+        o.insert("fwd".into(), measures!(va.clone(), vb.clone(), toi, 0, mv.clone(), hi.clone(), <$t>::from(0i32) - mv.clone()));
+        o.insert("swp".into(), measures!(vb.clone(), va.clone(), toi, 0, mv.clone(), hi.clone(), <$t>::from(0i32) - mv.clone()));
+        o.insert("same".into(), measures!(va.clone(), va.to_owned(), toi, 0, mv.clone(), hi.clone(), <$t>::from(0i32) - mv.clone()));
         o.insert("S".into(), json!(1));
     }}; }
     macro_rules! float_ty { ($t:ty, $hik:expr) => {{
@@ -265,9 +266,9 @@ fn dev_ev(case: &Value, out: &mut Vec<Value>) {
         let mv = maxv as $t / 4.0;
         let hi = mv * (10.0 as $t).powi($hik);
         o.insert("hik".into(), json!($hik));
-        o.insert("fwd".into(), measures!(va.clone(), vb.clone(), toi, 0, mv, hi));
-        o.insert("swp".into(), measures!(vb.clone(), va.clone(), toi, 0, mv, hi));
-        o.insert("same".into(), measures!(va.clone(), va.to_owned(), toi, 0, mv, hi));
+        o.insert("fwd".into(), measures!(va.clone(), vb.clone(), toi, 0, mv, hi, -mv));
+        o.insert("swp".into(), measures!(vb.clone(), va.clone(), toi, 0, mv, hi, -mv));
+        o.insert("same".into(), measures!(va.clone(), va.to_owned(), toi, 0, mv, hi, -mv));
         o.insert("S".into(), json!(4));
     }}; }
     // two different views of ONE buffer starting at the same element (the case says how b is derived from a's buffer)
@@ -277,16 +278,16 @@ fn dev_ev(case: &Value, out: &mut Vec<Value>) {
         if alias == "t" {
             let k = (base.len() as f64).sqrt() as usize;
             let m = Array2::from_shape_vec((k, k), base).unwrap();
-            o.insert("fwd".into(), measures!(m.view(), m.t(), toi, 0, $mv, $mv));
-            o.insert("swp".into(), measures!(m.t(), m.view(), toi, 0, $mv, $mv));
-            o.insert("same".into(), measures!(m.view(), m.view(), toi, 0, $mv, $mv));
+            o.insert("fwd".into(), measures!(m.view(), m.t(), toi, 0, $mv, $mv, -$mv));
+            o.insert("swp".into(), measures!(m.t(), m.view(), toi, 0, $mv, $mv, -$mv));
+            o.insert("same".into(), measures!(m.view(), m.view(), toi, 0, $mv, $mv, -$mv));
         } else {
             let m = Array1::from(base);
             let h = m.len() / 2;
             let (va, vb) = (m.slice(ndarray::s![..h]), m.slice(ndarray::s![..2 * h;2]));
-            o.insert("fwd".into(), measures!(va.clone(), vb.clone(), toi, 0, $mv, $mv));
-            o.insert("swp".into(), measures!(vb.clone(), va.clone(), toi, 0, $mv, $mv));
-            o.insert("same".into(), measures!(va.clone(), va.clone(), toi, 0, $mv, $mv));
+            o.insert("fwd".into(), measures!(va.clone(), vb.clone(), toi, 0, $mv, $mv, -$mv));
+            o.insert("swp".into(), measures!(vb.clone(), va.clone(), toi, 0, $mv, $mv, -$mv));
+            o.insert("same".into(), measures!(va.clone(), va.clone(), toi, 0, $mv, $mv, -$mv));
         }
         o.insert("S".into(), json!($s));
         o.insert("hik".into(), json!(0));
@@ -354,7 +355,7 @@ fn devnan_ev(case: &Value, out: &mut Vec<Value>) {
     let b = jints(&case["b"]);
     let shape = shape_of(case, a.len());
     let (l1, l2) = (lay_of(case, "lay1", &shape), lay_of(case, "lay2", &shape));
-    let mk = |v: i64| -> f64 { if v == 99 { nan64() } else { v as f64 / 4.0 } };
+    let mk = |v: i64| -> f64 { if v == 99 { nan64() } else if v == 98 { f64::INFINITY } else { v as f64 / 4.0 } };
     let (pa, pb) = (l1.build(&a.iter().map(|&v| mk(v)).collect::<Vec<_>>(), |_| 77.0), l2.build(&b.iter().map(|&v| mk(v)).collect::<Vec<_>>(), |_| 55.0));
     let (va, vb) = (l1.view(&pa), l2.view(&pb));
     let c = |r: Result<Result<usize, ndarray_stats::errors::MultiInputError>, ()>| -> i64 { match r { Ok(Ok(v)) => v as i64, _ => -1 } };
@@ -378,9 +379,11 @@ fn devnan_ev(case: &Value, out: &mut Vec<Value>) {
     let f = |r: Result<Result<f64, ndarray_stats::errors::MultiInputError>, ()>| -> Value { match r { Ok(Ok(v)) => quant(v, 2), _ => json!(ERR_Q) } };
     let mut linf = vec![f(guarded(|| va.linf_dist(&vb)))];
     let mut l1 = vec![f(guarded(|| va.l1_dist(&vb)))];
-    for (x, y) in &variants { linf.push(f(guarded(|| x.linf_dist(y)))); l1.push(f(guarded(|| x.l1_dist(y)))); }
+    let mut sq = vec![f(guarded(|| va.sq_l2_dist(&vb)))];
+    for (x, y) in &variants { linf.push(f(guarded(|| x.linf_dist(y)))); l1.push(f(guarded(|| x.l1_dist(y)))); sq.push(f(guarded(|| x.sq_l2_dist(y)))); }
     o.insert("linf".into(), json!(linf));
     o.insert("l1".into(), json!(l1));
+    o.insert("sq".into(), json!(sq));
     out.push(Value::Object(o));
 }
 
@@ -570,7 +573,9 @@ pub fn gen(seed: u64, count: usize, tier: &str, params: &Params) -> Vec<Value> {
             "corr" => {
                 let nv = rng.range(1, 4) as usize;
                 let no = rng.range(2, 5) as usize;
-                let rows: Vec<Vec<i64>> = (0..nv).map(|_| { let mut r: Vec<i64> = (0..no).map(|_| rng.range(-2, 2)).collect(); if r.iter().all(|&v| v == r[0]) { r[0] += 1; } r }).collect();
+                let mut rows: Vec<Vec<i64>> = (0..nv).map(|_| { let mut r: Vec<i64> = (0..no).map(|_| rng.range(-2, 2)).collect(); if r.iter().all(|&v| v == r[0]) { r[0] += 1; } r }).collect();
+                // exactly collinear / anti-collinear variables (correlation +-1, where roundoff can land outside [-1, 1])
+                if nv >= 2 && rng.chance(1, 5) { let c = *rng.pick(&[-1i64, 1, -1]); let d0 = rng.range(-1, 1); rows[1] = rows[0].iter().map(|&v| c * v + d0).collect(); }
                 // keep the exact numerators of the squared-correlation identity within 31 bits
                 let nmax = rows.iter().map(|r| { let n = no as i64; let s: i64 = r.iter().sum(); r.iter().map(|&v| (n * v - s) * (n * v - s)).sum::<i64>() }).max().unwrap();
                 if nmax * nmax * 4500 >= (1i64 << 31) { continue; }
@@ -601,8 +606,11 @@ pub fn gen(seed: u64, count: usize, tier: &str, params: &Params) -> Vec<Value> {
                 let n = rng.range(1, 8) as usize;
                 let shape = random_shape(&mut rng, n);
                 let (lay1, lay2) = two_lays(&mut rng, &shape);
-                let a: Vec<i64> = (0..n).map(|_| if rng.chance(1, 4) { 99 } else { rng.range(-3, 3) }).collect();
-                let b: Vec<i64> = a.iter().map(|&v| if rng.chance(1, 2) { v } else if rng.chance(1, 4) { 99 } else { rng.range(-3, 3) }).collect();
+                // 99 = NaN; 98 = +inf in the first operand (an infinite difference: the sums are +inf wherever the pair sits)
+                let inf_case = rng.chance(1, 3);
+                let mut a: Vec<i64> = (0..n).map(|_| if !inf_case && rng.chance(1, 4) { 99 } else { rng.range(-3, 3) }).collect();
+                let b: Vec<i64> = a.iter().map(|&v| if rng.chance(1, 2) { v } else if !inf_case && rng.chance(1, 4) { 99 } else { rng.range(-3, 3) }).collect();
+                if inf_case { let k = rng.below(n as u64) as usize; a[k] = 98; }
                 cases.push(json!({"ev": "devnan", "a": a, "b": b, "shape": shape, "lay1": lay1, "lay2": lay2}));
             }
             "dev" => {
